@@ -45,16 +45,33 @@ class Channel(Model):
         self.closed = closed
 
 
+class RxHandle(Model):
+    """tokio mpsc Receiver: dropping it closes the channel (senders are plain pointers; their drop is not modelled)"""
+    __slots__ = ('chan',)
+    fields = ()
+
+    def __init__(self, chan):
+        self.chan = chan
+
+    def on_drop(self, it):
+        ch = it.load(self.chan)
+        it.store(self.chan, Channel(ch.fields, ch.cap, True))
+
+
 def m_channel(it, a, ty, callee):
     cap = a[0].v if a and isinstance(a[0], Int) and a[0].conc else None
     cell = Cell('chan', Channel((), cap))
-    return Tup([Ptr(cell), Ptr(cell)])
+    return Tup([Ptr(cell), RxHandle(Ptr(cell))])
 
 
 def _chan(it, p):
-    while isinstance(p, Ptr) and not isinstance(it.load(p), Channel):
-        p = it.load(p)
-    return p
+    while True:
+        if isinstance(p, RxHandle):
+            p = p.chan
+        elif isinstance(p, Ptr) and not isinstance(it.load(p), Channel):
+            p = it.load(p)
+        else:
+            return p
 
 
 def m_try_send(it, a, ty, callee):
